@@ -312,5 +312,9 @@ pub fn program_families(tier: &str) -> Vec<Box<dyn ProgFamily>> {
         Box::new(WithDirectives { inner: Sequences { depth: 2, layouts: six_layouts(), full_product: false } }),
     ];
     v.push(Box::new(Sequences { depth: 3, layouts: six_layouts(), full_product: !quick }));
+    if !quick {
+        // all 40^4 sequences of four constructs, each once (layout and module scope rotate)
+        v.push(Box::new(Sequences { depth: 4, layouts: six_layouts(), full_product: false }));
+    }
     v
 }
